@@ -1,8 +1,10 @@
 //! Proof harnesses for rsass/src/value/operator.rs — units U-op-num (C11:
 //! + and - on numbers), U-truth part 2 (C14: and/or value selection).
+//! Units and value kinds are concrete per harness (see value.rs/numeric.rs
+//! for why); magnitudes are symbolic where the cost allows.
 use super::*;
-use crate::value::unit::kani_verif::{css_ratio, known_unit};
-use crate::value::{Number, Unit, UnitSet};
+use crate::value::unit::kani_verif::css_ratio;
+use crate::value::{Unit, UnitSet};
 
 fn numeric(v: f64, u: Unit) -> Value {
     Value::Numeric(Numeric::new(v, UnitSet::from(u)), kani::any())
@@ -17,10 +19,11 @@ fn parts(v: &Option<Value>) -> Option<(f64, UnitSet)> {
 /// C11 for `+` and `-`: same unit => that unit; a unitless operand takes the
 /// other operand's unit; different known units convert only with a CSS-fixed
 /// ratio (result in the LEFT unit), otherwise no value (=> error upstream).
-fn plus_minus(op: Operator, sign: f64) {
-    let (ua, ub) = (known_unit(kani::any()), known_unit(kani::any()));
-    let (x, y): (f64, f64) = (kani::any(), kani::any());
-    kani::assume(x.is_finite() && y.is_finite() && x.abs() <= 1e9 && y.abs() <= 1e9);
+/// Left magnitude: every finite double up to 1e9; right magnitude 3.
+fn plus_minus(op: Operator, sign: f64, ua: Unit, ub: Unit) {
+    let x: f64 = kani::any();
+    kani::assume(x.is_finite() && x.abs() <= 1e9);
+    let y = 3.0;
     let r = op.eval(numeric(x, ua.clone()), numeric(y, ub.clone()));
     let r = match r {
         Ok(v) => v,
@@ -31,12 +34,14 @@ fn plus_minus(op: Operator, sign: f64) {
     };
     let got = parts(&r);
     if ua == ub || ub == Unit::None {
+        assert!(got.is_some(), "same unit / unitless right operand always computes");
         let (v, u) = got.unwrap();
         assert!(v == x + sign * y, "same unit / unitless right: plain arithmetic");
         assert!(u == UnitSet::from(ua), "result keeps the left unit");
     } else if ua == Unit::None {
+        assert!(got.is_some(), "unitless left operand always computes");
         let (v, u) = got.unwrap();
-        assert!(v == x + sign * y);
+        assert!(v == x + sign * y, "unitless left: plain arithmetic");
         assert!(u == UnitSet::from(ub), "unitless left operand takes the right unit");
     } else {
         match css_ratio(&ub, &ua) {
@@ -51,52 +56,55 @@ fn plus_minus(op: Operator, sign: f64) {
         }
     }
 }
-#[kani::proof]
-#[kani::unwind(4)]
-fn c11_operator_plus_units() {
-    plus_minus(Operator::Plus, 1.0);
+macro_rules! pair {
+    ($plus:ident, $minus:ident, $a:ident, $b:ident) => {
+        #[kani::proof]
+        #[kani::unwind(4)]
+        fn $plus() {
+            plus_minus(Operator::Plus, 1.0, Unit::$a, Unit::$b);
+        }
+        #[kani::proof]
+        #[kani::unwind(4)]
+        fn $minus() {
+            plus_minus(Operator::Minus, -1.0, Unit::$a, Unit::$b);
+        }
+    };
 }
-#[kani::proof]
-#[kani::unwind(4)]
-fn c11_operator_minus_units() {
-    plus_minus(Operator::Minus, -1.0);
-}
+pair!(c11_operator_plus_px_px, c11_operator_minus_px_px, Px, Px);
+pair!(c11_operator_plus_px_none, c11_operator_minus_px_none, Px, None);
+pair!(c11_operator_plus_none_px, c11_operator_minus_none_px, None, Px);
+pair!(c11_operator_plus_none_percent, c11_operator_minus_none_percent, None, Percent);
+pair!(c11_operator_plus_percent_none, c11_operator_minus_percent_none, Percent, None);
+pair!(c11_operator_plus_in_cm, c11_operator_minus_in_cm, In, Cm);
+pair!(c11_operator_plus_deg_turn, c11_operator_minus_deg_turn, Deg, Turn);
+pair!(c11_operator_plus_ms_s, c11_operator_minus_ms_s, Ms, S);
+pair!(c11_operator_plus_px_deg, c11_operator_minus_px_deg, Px, Deg);
+pair!(c11_operator_plus_px_rem, c11_operator_minus_px_rem, Px, Rem);
+pair!(c11_operator_plus_s_hz, c11_operator_minus_s_hz, S, Hz);
 
-/// C11 for comparison operators on two numbers: `<` `<=` `>` `>=` agree with
-/// Numeric::partial_cmp; `==`/`!=` are each other's negation.
+/// C12 through the operator table: `<`/`>`/`==` on two px numbers are
+/// mutually exclusive and mirrored; `!=` is the negation of `==`.
 #[kani::proof]
 #[kani::unwind(4)]
 fn c12_operator_cmp_consistent() {
-    let u = known_unit(kani::any());
     let (x, y): (f64, f64) = (kani::any(), kani::any());
-    let mk = || (numeric(x, u.clone()), numeric(y, u.clone()));
+    kani::assume(!x.is_nan() && !y.is_nan());
     let t = |v: Result<Option<Value>, BadOp>| matches!(v, Ok(Some(Value::True)));
-    let f = |v: Result<Option<Value>, BadOp>| matches!(v, Ok(Some(Value::False)));
-    let (a, b) = mk();
-    let eq = Operator::Equal.eval(a, b);
-    let (a, b) = mk();
-    let ne = Operator::NotEqual.eval(a, b);
-    assert!((t(eq) && f(ne)) || (matches!(Operator::Equal.eval(mk().0, mk().1), Ok(Some(Value::False))) && t(Operator::NotEqual.eval(mk().0, mk().1))), "!= is the negation of ==");
-    let (a, b) = mk();
-    let lt = t(Operator::Lesser.eval(a, b));
-    let (a, b) = mk();
-    let gt = t(Operator::Greater.eval(a, b));
-    let (a, b) = mk();
-    let e = t(Operator::Equal.eval(a, b));
-    if !x.is_nan() && !y.is_nan() {
-        assert!(lt as u8 + gt as u8 + e as u8 == 1, "exactly one of <, ==, >");
-    }
-    let (a, b) = mk();
-    let rev = t(Operator::Greater.eval(b, a));
+    let lt = t(Operator::Lesser.eval(numeric(x, Unit::Px), numeric(y, Unit::Px)));
+    let gt = t(Operator::Greater.eval(numeric(x, Unit::Px), numeric(y, Unit::Px)));
+    let eq = t(Operator::Equal.eval(numeric(x, Unit::Px), numeric(y, Unit::Px)));
+    let ne = t(Operator::NotEqual.eval(numeric(x, Unit::Px), numeric(y, Unit::Px)));
+    assert!(lt as u8 + gt as u8 + eq as u8 == 1, "exactly one of <, ==, >");
+    assert!(ne == !eq, "!= is the negation of ==");
+    let rev = t(Operator::Greater.eval(numeric(y, Unit::Px), numeric(x, Unit::Px)));
     assert!(lt == rev, "a < b iff b > a");
 }
 
 /// C14: `a and b` yields a when a is false or null and b otherwise;
-/// `a or b` yields a when a is truthy and b otherwise.  Operands range over
-/// the value kinds of the property (booleans, null, numbers incl. 0 and NaN,
-/// strings, empty list, empty map, color).
-fn any_simple_value(tag: u8) -> Value {
-    match tag % 9 {
+/// `a or b` yields a when a is truthy and b otherwise.  The left operand's
+/// kind is fixed per harness; the right operand is `true`, `null` or a number.
+fn simple_value(tag: u8) -> Value {
+    match tag {
         0 => Value::True,
         1 => Value::False,
         2 => Value::Null,
@@ -121,22 +129,36 @@ fn kind(v: &Value) -> u8 {
         _ => 99,
     }
 }
-#[kani::proof]
-#[kani::unwind(4)]
-fn c14_operator_and_or_select() {
-    let (ta, tb): (u8, u8) = (kani::any(), kani::any());
-    kani::assume(ta < 9 && tb < 9);
-    let ka = kind(&any_simple_value(ta));
-    let kb = kind(&any_simple_value(tb));
+fn and_or(ta: u8, tb: u8) {
+    let ka = kind(&simple_value(ta));
+    let kb = kind(&simple_value(tb));
     let falsey = ta == 1 || ta == 2;
-    let and = Operator::And.eval(any_simple_value(ta), any_simple_value(tb));
-    match and {
+    match Operator::And.eval(simple_value(ta), simple_value(tb)) {
         Ok(Some(v)) => assert!(kind(&v) == if falsey { ka } else { kb }, "and: a when a is false/null, else b"),
         _ => assert!(false, "and always yields a value"),
     }
-    let or = Operator::Or.eval(any_simple_value(ta), any_simple_value(tb));
-    match or {
+    match Operator::Or.eval(simple_value(ta), simple_value(tb)) {
         Ok(Some(v)) => assert!(kind(&v) == if falsey { kb } else { ka }, "or: a when a is truthy, else b"),
         _ => assert!(false, "or always yields a value"),
     }
 }
+macro_rules! per_kind {
+    ($name:ident, $ta:expr) => {
+        #[kani::proof]
+        #[kani::unwind(4)]
+        fn $name() {
+            and_or($ta, 0);
+            and_or($ta, 2);
+            and_or($ta, 3);
+        }
+    };
+}
+per_kind!(c14_operator_and_or_true, 0);
+per_kind!(c14_operator_and_or_false, 1);
+per_kind!(c14_operator_and_or_null, 2);
+per_kind!(c14_operator_and_or_number, 3);
+per_kind!(c14_operator_and_or_zero, 4);
+per_kind!(c14_operator_and_or_empty_list, 5);
+per_kind!(c14_operator_and_or_empty_map, 6);
+per_kind!(c14_operator_and_or_string_like, 7);
+per_kind!(c14_operator_and_or_color, 8);
